@@ -5,7 +5,7 @@ three functions given as 4-entry truth tables; variant "rtl" builds all three as
 replaces F2 and F3 by user processes written exactly as the simulator guide describes (changed() / tick().sample())."""
 import random
 
-from amaranth.hdl import Signal, Const, Cat, Module, ClockDomain, Period
+from amaranth.hdl import Signal, Const, Cat, Module, ClockDomain, Period, signed
 from amaranth.sim import Simulator
 
 
@@ -67,7 +67,8 @@ def run(fn, script, period, phase, variant="rtl", perm_seed=None, reset_midway=F
     # with two write ports in two clock domains whose edges coincide; both mirror (r, q)
     from amaranth.lib.memory import Memory
     m.domains.sync2 = ClockDomain("sync2")
-    rq = Signal(2, name="rq", init=r0 + 2 * q0)
+    # (signed: its value is stored sign-extended, and each of the two fragments updates one bit of it)
+    rq = Signal(signed(2), name="rq", init=r0 + 2 * q0 - (4 if q0 else 0))
     nr = Const(f3, 4).bit_select(Cat(y, q), 1)
     nq = Const(f4, 4).bit_select(Cat(r, a), 1)
     m5 = Module()
@@ -76,6 +77,14 @@ def run(fn, script, period, phase, variant="rtl", perm_seed=None, reset_midway=F
     m6 = Module()
     m6.d.sync += rq[1].eq(nq)
     m.submodules.m6 = m6
+    # one signed combinational signal whose bits are driven by two fragments (AmSim!Val("xy") = x + 2 * y)
+    xy = Signal(signed(2), name="xy", init=x0 + 2 * y0 - (4 if y0 else 0))
+    m7 = Module()
+    m7.d.comb += xy[0].eq(Const(f1, 4).bit_select(Cat(a, b), 1))
+    m.submodules.m7 = m7
+    m8 = Module()
+    m8.d.comb += xy[1].eq(Const(f2, 4).bit_select(Cat(x, b), 1))      # (reads x, not xy: it is not woken by changes of xy)
+    m.submodules.m8 = m8
     mem = Memory(shape=2, depth=2, init=[r0 + 2 * q0])
     m.submodules.mem = mem
     w1 = mem.write_port(domain="sync", granularity=1)
@@ -98,7 +107,7 @@ def run(fn, script, period, phase, variant="rtl", perm_seed=None, reset_midway=F
                     ctx.set(r, tt(f3, yv, qv))
         sim.add_process(p2)
         sim.add_process(p3)
-    sigs = {"a": a, "b": b, "x": x, "y": y, "r": r, "q": q, "rq": rq, "mem": mem.data[0]}
+    sigs = {"a": a, "b": b, "x": x, "y": y, "r": r, "q": q, "rq": rq, "mem": mem.data[0], "xy": xy}
     obs = []
 
     def make_tb(idx, ops):
@@ -108,7 +117,10 @@ def run(fn, script, period, phase, variant="rtl", perm_seed=None, reset_midway=F
                 if k == "set":
                     ctx.set(sigs[op[1]], op[2])
                 elif k == "get":
-                    obs.append((idx, "get", op[1], ctx.get(sigs[op[1]])))
+                    v = ctx.get(sigs[op[1]])
+                    if op[1] in ("rq", "xy"):      # the model speaks of the bit pattern; anything but the canonical signed value is reported as is
+                        v = v & 3 if -2 <= v <= 1 else ("not a value of signed(2)", v)
+                    obs.append((idx, "get", op[1], v))
                 elif k == "time":
                     obs.append((idx, "time", T(ctx)))
                 elif k == "tick":
